@@ -59,7 +59,7 @@ fn sequence(mut idx: u64, l: u32) -> Vec<Behaviour> {
     out
 }
 
-const SPECIALS: u64 = 6;
+const SPECIALS: u64 = 10;
 
 pub fn plan(p: &EpParams) -> Plan {
     let l = max_len(p);
@@ -67,7 +67,7 @@ pub fn plan(p: &EpParams) -> Plan {
         episodes: n_sequences(l) * 2 + SPECIALS,
         exhaustive: true,
         rule: format!(
-            "fault sequences: every per-attempt endpoint behaviour sequence of length <= {} over {} behaviours (200 201 202 204 102 100 203 205 301 400 404 429 500 503 reset-after-request reset-on-accept answer-{}s-late) followed by 200, once with 1 message and once with 3 messages (sequence rotated per message), plus {} special episodes (closed port first, deletion while failing, pull-only sibling). Push interval {} s, ack deadline {} s. Non-trivial: >=1 POST answered by each behaviour of the sequence. Distinct: the behaviour sequence x message count.",
+            "fault sequences: every per-attempt endpoint behaviour sequence of length <= {} over {} behaviours (200 201 202 204 102 100 203 205 301 400 404 429 500 503 reset-after-request reset-on-accept answer-{}s-late) followed by 200, once with 1 message and once with 3 messages (sequence rotated per message), plus {} special episodes (closed port first, deletion while failing, always-late endpoint, and five episodes in which a unary puller competes with the push rounds for the same subscription). Push interval {} s, ack deadline {} s. Non-trivial: >=1 POST answered by each behaviour of the sequence. Distinct: the behaviour sequence x message count.",
             l, alphabet().len(), LATE_S, SPECIALS, INTERVAL_S, DEADLINE_S
         ),
     }
@@ -158,6 +158,12 @@ async fn episode(p: &EpParams) -> EpReport {
         if matches!(special, Some(2) | Some(3)) {
             e.set_script("p1", vec![Behaviour::Status(500); 400]);
         }
+        // specials 5-9: a unary puller competes with the push rounds for the same subscription
+        // (C03: a message leased to one of them is not handed to the other)
+        if matches!(special, Some(5..=9)) {
+            e.set_script("p0", vec![Behaviour::Status(500), Behaviour::Status(503), Behaviour::Status(500)]);
+            e.set_script("p1", vec![Behaviour::ResetAfterRequest, Behaviour::Status(429)]);
+        }
         // special 4: everything is late for ever (never accepted in time)
         if special == Some(4) {
             e.set_script("p0", vec![Behaviour::Late(LATE_S, 200); 6]);
@@ -193,16 +199,28 @@ async fn episode(p: &EpParams) -> EpReport {
     let e = ep.as_ref().unwrap();
 
     // Let time pass until every message has an accepted-in-time answer (or the cap).
+    let competing = matches!(special, Some(5..=9));
+    let mut pulled_by_competitor: Vec<(Vt, Delivery)> = Vec::new();
     let attempts_cap = seq.len() as u64 + 2;
     let cap_s = attempts_cap * (LATE_S + DEADLINE_S + 2 * INTERVAL_S + MARGIN_S) + 120;
     let mut elapsed = 0;
     let poison = matches!(special, Some(2) | Some(3));
     loop {
+        if competing && elapsed < 40 {
+            // a competing consumer pulls (and never acks): whatever it gets is leased to it for 60 s
+            tokio::time::sleep(Duration::from_millis(rng.range(100, 900))).await;
+            if let Ok(ds) = Cx::new(&w, 7).pull(&sp, 1, true).await {
+                let now = w.vt();
+                for d in ds {
+                    pulled_by_competitor.push((now, d));
+                }
+            }
+        }
         tokio::time::sleep(Duration::from_secs(INTERVAL_S)).await;
         elapsed += INTERVAL_S;
         let posts = e.posts();
         let all_done = tags.iter().all(|tg| (poison && tg == "p1") || posts.iter().any(|r| r.tag == *tg && accepted_in_time(r)));
-        if all_done || elapsed >= cap_s {
+        if (all_done && !(competing && elapsed < 200)) || elapsed >= cap_s {
             break;
         }
         if special == Some(4) && elapsed > 6 * (LATE_S + 10) {
@@ -282,7 +300,8 @@ async fn episode(p: &EpParams) -> EpReport {
                 }
             }
             // P2: after a failure, another POST follows
-            if first_ok.map(|a| k < a).unwrap_or(true) && !accepted_in_time(r) {
+            // (with a competing puller a failed message may sit in the puller's lease for 60 s: no timing claim)
+            if !competing && first_ok.map(|a| k < a).unwrap_or(true) && !accepted_in_time(r) {
                 let deleted_before = t_deleted.map(|d| d <= failure_known(r).unwrap_or(u64::MAX)).unwrap_or(false);
                 if let Some(f) = failure_known(r) {
                     let limit = f + (2 * INTERVAL_S + MARGIN_S) * SEC;
@@ -306,6 +325,32 @@ async fn episode(p: &EpParams) -> EpReport {
                 } else if is_marginal(r) {
                     rep.inconclusive("answer inside the deadline margin");
                 }
+            }
+        }
+    }
+    // C03 across consumer kinds: while the competing puller holds a lease (60 s, never acked or
+    // nacked) the push rounds must not POST that message, and a message whose POST is pending
+    // must not be handed to the puller. Margins absorb the lumpy clock.
+    if competing {
+        rep.add("competitor_deliveries", pulled_by_competitor.len() as u64);
+        for (t_pull, d) in &pulled_by_competitor {
+            let lease_end = t_pull + DEADLINE_S * SEC;
+            for r in posts.iter().filter(|r| r.tag == d.tag) {
+                if r.vt_begin > t_pull + 3 * SEC && r.vt_begin + 5 * SEC < lease_end {
+                    rep.viol("C03", "C03:X3:lease-overlap:push-vs-pull", format!("{} was handed to a Pull at {} ms (lease until {} ms) and POSTed to the push endpoint at {} ms", d.tag, t_pull / MS, lease_end / MS, r.vt_begin / MS));
+                }
+                // POST in flight / just failed: the nack or ack ends the push lease at the answer
+                if let Some(a) = r.vt_answer {
+                    if r.vt_begin + 3 * SEC < *t_pull && *t_pull + 3 * SEC < a {
+                        rep.viol("C03", "C03:X3:lease-overlap:pull-during-post", format!("{} was handed to a Pull at {} ms while its POST (begun {} ms) was still unanswered (answered {} ms)", d.tag, t_pull / MS, r.vt_begin / MS, a / MS));
+                    }
+                }
+            }
+        }
+        let mut ids = std::collections::BTreeSet::new();
+        for (_, d) in &pulled_by_competitor {
+            if !ids.insert(d.ack_id.clone()) {
+                rep.viol("C03", "C03:X1:ack-id-reused", format!("ack id {} handed to the competing puller twice", d.ack_id));
             }
         }
     }
